@@ -261,11 +261,11 @@ def arrZ : M8 := [[1, 0], [0, -1]]                                              
     the model, under explicit names; the switch only selects which one `Gate.eval`, `arrY`, `ry`,
     `gate2zxCur` — i.e. the driver — use). -/
 /-- F17: gates.py:402 (`Ry`) and 561 (`Y`) stored transposed. -/
-def f17Fixed : Bool := false
+def f17Fixed : Bool := true
 /-- F2: `Controlled.__init__` reads the target's array ignoring its dagger flag (gates.py:278). -/
-def f2Fixed : Bool := false
+def f2Fixed : Bool := true
 /-- F7: `gate2zx` of CRz / CRx / CU1 (zx.py:376-384). -/
-def f7Fixed : Bool := false
+def f7Fixed : Bool := true
 
 def arrY : M8 := if f17Fixed then arrYFixed else arrYAsIs
 def ry {R : Type} [Neg R] (c s : R) : Mat R := if f17Fixed then ryFixed c s else ryAsIs c s
